@@ -5,7 +5,7 @@ A change is kept only if: its patch applies to /repo HEAD, the library builds, a
 and its demonstration fails with the change and passes without it."""
 import json, os, shutil, subprocess, sys, re, time
 V = os.path.dirname(os.path.dirname(os.path.abspath(__file__)))
-def sh(cmd, **kw): return subprocess.run(cmd, shell=True, stdout=subprocess.PIPE, stderr=subprocess.STDOUT, text=True, **kw)
+def sh(cmd, **kw): return subprocess.run(cmd, shell=True, stdout=subprocess.PIPE, stderr=subprocess.STDOUT, text=True, errors="replace", **kw)
 
 def confirm(wt, prop, name):
     out = os.path.join(V, "seeded", name)
